@@ -261,6 +261,23 @@ def oracle(ctx, n_cases):
                 dev = max(abs(rf[i][k] - tgt[i][k]) for i in range(n) for k in range(3))
                 if dev > 1e-6 * sc:
                     bad('fit_fragment: exact rigid copy is not superimposed on its targets', 0.0, dev)
+                if rng.random() < 0.3 and sc >= 0.01:
+                    # "for any position of the fragment": fragment and target both far from the origin (and from each other)
+                    T1 = [rng.uniform(-1, 1) * rng.choice([1e4, 1e5, 4e6]) for _ in range(3)]
+                    T2 = [rng.uniform(-1, 1) * rng.choice([1e4, 1e5, 4e6]) for _ in range(3)]
+                    tmag = max(abs(v) for v in T1 + T2)
+                    frag_far = [[p[k] + T1[k] for k in range(3)] for p in src]
+                    tgt_far = [[p[k] + T2[k] for k in range(3)] for p in tgt]
+                    try:
+                        rf3, rms3 = qf.fit_fragment(frag_far, [frag_far[i] for i in sel], [list(tgt_far[i]) for i in sel])
+                        rf3 = [list(p) for p in rf3]
+                        dev3 = max(abs(rf3[i][k] - tgt_far[i][k]) for i in range(n) for k in range(3))
+                    except Exception as ex:
+                        dev3 = '%s: %s' % (type(ex).__name__, ex)
+                    ev += 1
+                    if not isinstance(dev3, float) or dev3 > 1e-6 * sc + 1e-11 * tmag:
+                        case['far'] = {'fragment_shift': T1, 'target_shift': T2}
+                        bad('fit_fragment: a fragment far from the origin is not superimposed on its (far) targets', 0.0, dev3)
                 if rng.random() < 0.4:
                     # the same fragment placed on a second site (e.g. two disorder positions): the first call must not have changed the caller's lists
                     R2, t2 = rand_rot(rng), [rng.uniform(-10, 10) * sc for _ in range(3)]
